@@ -274,6 +274,21 @@ class PlaceInterp(RecInterp):
     def apply(self, clo, args):
         if isinstance(clo, tuple) and len(clo) == 2 and clo[0] == 'pyfn':
             return clo[1](*args)                 # a caller-supplied closure of the rule itself (the `keep` / `compare` argument of the API under evaluation)
+        if isinstance(clo, tuple) and len(clo) == 3 and clo[0] == 'closure' and isinstance(clo[2], dict) and not clo[1].get('fnval'):
+            # a closure that assigns to a captured variable (`last_position = pos`) sees the new value on its next call
+            _, node, cenv = clo
+            env = dict(cenv)
+            params = node.get('params', [])
+            if len(params) != len(args):
+                raise Unanalysable('closure arity')
+            for p, a in zip(params, args):
+                self.bind(p, a, env)
+            try:
+                return self._call_body(node['body'], env)
+            finally:
+                for k_, v_ in env.items():
+                    if k_ in cenv and not str(k_).startswith('@') and cenv[k_] is not v_:
+                        cenv[k_] = v_
         return super().apply(clo, args)
 
     def type_of(self, v):
@@ -343,6 +358,10 @@ class PlaceInterp(RecInterp):
             seg = last_seg(p)
             if f.get('k') == 'path' and p.startswith(MAP_CTOR_PREFIXES) and seg in ('new', 'with_capacity', 'default', 'with_capacity_and_hasher', 'with_hasher'):
                 return MapObj((), sorted_='btree' in p.lower())
+            if (f.get('path') or '').startswith('kstring::') and len(e.get('args', [])) == 1 and self._workspace_body(f) is None:
+                a0 = deref(self.val(e['args'][0], env))
+                if isinstance(a0, str):
+                    return a0               # the `perf` feature's string type: a string is the text it holds
             if seg == 'default' and f.get('res') in ('AssocFn', 'Fn') and not e.get('args'):
                 t = e.get('t') or ''
                 if self._workspace_body(f) is not None:
@@ -363,6 +382,16 @@ class PlaceInterp(RecInterp):
                     return IterObj([self._vec_ref(d0, i) for i in range(len(d0.items))])
                 node = dict(e, args=[self._bindnode(d0, env, e['args'][0])])
                 return super().val(node, env)
+        if k == 'addrof' and e.get('mut') and peel(e['a']).get('k') == 'path' and peel(e['a']).get('res') == 'Local':
+            nm = peel(e['a'])['path']
+            if nm in env and isinstance(env[nm], (bool, int, float, str)):
+                # `&mut flag` of a plain local: the callee's `*flag = ..` must be seen here
+                return SlotRef(lambda: env[nm], lambda v: env.__setitem__(nm, v), f'local {nm}')
+        if k == 'unary' and e.get('op') == '*':
+            v = self.val(e['a'], env)
+            if isinstance(v, SlotRef) and isinstance(v.get(), (bool, int, float, str)):
+                return v.get()
+            return v
         if k == 'addrof' and e.get('mut') and peel(e['a']).get('k') == 'index':
             ix = peel(e['a'])
             base = deref(self.val(ix['base'], env))
@@ -389,6 +418,11 @@ class PlaceInterp(RecInterp):
         if k == 'unary' and e.get('op') in ('!', '-'):
             a = self.val(e['a'], env)
             return super().val(dict(e, a=self._bindnode(deref(a), env, e['a'])), env)
+        if k == 'if':
+            c = self.val(e['cond'], env)
+            if isinstance(c, SlotRef):
+                return super().val(dict(e, cond=self._bindnode(deref(c), env, e['cond'])), env)
+            return super().val(dict(e, cond=self._bindnode(c, env, e['cond'])), env)
         if k == 'index':
             b = self.val(e['base'], env)
             if isinstance(b, SlotRef):
@@ -434,6 +468,18 @@ class PlaceInterp(RecInterp):
             if r is not NotImplemented:
                 return r
             raise Unanalysable(f'method `{name}` on a modelled {type(recv).__name__}')
+        # auto-deref: an inherent method of T called on a value whose type derefs to T (`doc.decor()` is `Table::decor` through `Deref for DocumentMut`)
+        callee = strip_generics(e.get('resolved') or e.get('callee') or '')
+        rt = self.type_of(recv) if isinstance(recv, tuple) and len(recv) == 3 and recv[0] == 'struct' else None
+        if rt and '::' in callee and not callee.startswith('<') and self._workspace_method(e) is not None:
+            owner = callee.rsplit('::', 1)[0]
+            facts = self.ev.facts
+            if owner != rt and owner in getattr(facts, 'adts', {}) and rt in facts.adts:
+                for dn in ('deref', 'deref_mut'):
+                    dd = [d for d in facts.bodies if d.startswith(f'<{rt} as core::ops::deref::') and d.endswith('::' + dn)]
+                    if dd:
+                        target = self.apply_fn(facts.body(dd[0]), [raw])
+                        return super().val(dict(e, recv=self._bindnode(target, env, rnode)), env)
         if pure_place and not isinstance(raw, SlotRef):
             return super().val(e, env)
         # the receiver was evaluated (it may have had effects): hand the value on through a synthetic local
@@ -651,8 +697,15 @@ class PlaceInterp(RecInterp):
             if name in ('sort_by', 'sort_unstable_by') and len(a) == 1:
                 xs.sort(key=self._cmp_key(a[0], 2))
                 return ()
+            if name in ('sort_by_key', 'sort_unstable_by_key', 'sort_by_cached_key') and len(a) == 1:
+                xs.sort(key=lambda x: deref(self.apply(a[0], [x])))          # (Python's sort is stable, like sort_by_key)
+                return ()
+            if name in ('sort', 'sort_unstable') and not a:
+                xs.sort()
+                return ()
             return NotImplemented
         return NotImplemented
 
 
-VEC_PLACE_METHODS = {'get_mut', 'iter_mut', 'last_mut', 'first_mut', 'retain', 'retain_mut', 'swap_remove', 'swap', 'truncate', 'drain', 'sort_by', 'sort_unstable_by'}
+VEC_PLACE_METHODS = {'get_mut', 'iter_mut', 'last_mut', 'first_mut', 'retain', 'retain_mut', 'swap_remove', 'swap', 'truncate', 'drain', 'sort_by', 'sort_unstable_by', 'sort_by_key',
+                     'sort_unstable_by_key', 'sort_by_cached_key', 'sort', 'sort_unstable'}
